@@ -776,6 +776,7 @@ def rule_r8(ctx) -> RuleResult:
     table = ctx.index.const("wikihtml", "ALLOWED_HTML_TAGS")
     if len(bare_ifs) != 1:
         raise AnalysisError("to_wikitext: the test that chooses between `>` and ` />` for a childless element was not recognised")
+    bare_by_tag: dict = {}
     if isinstance(table, dict):
         test = bare_ifs[0].test
         wrong, undecided = [], 0
@@ -792,6 +793,7 @@ def rule_r8(ctx) -> RuleResult:
             except Exception:  # noqa: BLE001
                 undecided += 1
                 continue
+            bare_by_tag[tag] = bare
             if bare and not (isinstance(data, dict) and data.get("no-end-tag")):
                 wrong.append(tag)
         if undecided:
@@ -822,6 +824,63 @@ def rule_r8(ctx) -> RuleResult:
             and any(isinstance(c, ast.Call) and unparse(c.func) == "_parser_pop" for st in n.body for c in ast.walk(st))]
     plain = [n for n in pops if isinstance(n.test, ast.BoolOp) and isinstance(n.test.op, ast.Or) and any(isinstance(v, ast.Name) and v.id == flag for v in n.test.values)
              or (isinstance(n.test, ast.Name) and n.test.id == flag)]
+    # the element pushed on the general path: the test that closes it at once, evaluated for every tag that the emitter writes
+    # as `<tag />`, with the flag set -- it has to hold for each of them
+    pushes = [n for n in walk_no_nested(fn) if isinstance(n, (ast.Assign, ast.Expr)) and isinstance(n.value, ast.Call)
+              and unparse(n.value.func) == "_parser_push" and len(n.value.args) > 1 and unparse(n.value.args[1]) == "NodeKind.HTML"]
+    if bare_by_tag and pushes:
+        push = pushes[-1]
+        blk = next((b for b in ([fn.body] + [getattr(x, f_) for x in walk_no_nested(fn) for f_ in ("body", "orelse") if isinstance(getattr(x, f_, None), list)])
+                    if any(y is push for y in b)), None)
+        after = blk[[i for i, y in enumerate(blk) if y is push][0] + 1:] if blk else []
+        closing = [n for n in after if isinstance(n, ast.If) and any(isinstance(c, ast.Call) and unparse(c.func) == "_parser_pop" for st in n.body for c in ast.walk(st))]
+        if len(closing) != 1:
+            raise AnalysisError("tag_fn: the test that closes a just-opened element was not recognised")
+        ctest = closing[0].test
+        # locals assigned once between the push and the test are replaced by their values
+        local_vals = {n.targets[0].id: n.value for n in after if isinstance(n, ast.Assign) and len(n.targets) == 1 and isinstance(n.targets[0], ast.Name)
+                      and n.lineno < closing[0].lineno}
+        # the variable that holds the tag name: what is stored into the new node's sarg
+        tagvars = [unparse(n.value) for n in after if isinstance(n, ast.Assign) and len(n.targets) == 1 and unparse(n.targets[0]).endswith(".sarg")
+                   and isinstance(n.value, ast.Name)]
+        tagvar = tagvars[0] if tagvars else "name"
+        special = {c.value for n in walk_no_nested(fn) if isinstance(n, ast.Compare) and n.lineno < push.lineno and unparse(n.left) == tagvar
+                   for c in ast.walk(n) if isinstance(c, ast.Constant) and isinstance(c.value, str)}
+        stay_open, undecided = [], 0
+        for tag, data in sorted(table.items()):
+            if bare_by_tag.get(tag) or tag in special:
+                continue
+            class T2(ast.NodeTransformer):
+                def visit_Name(self, n):
+                    if n.id == flag:
+                        return ast.copy_location(ast.Constant(value=True), n)
+                    if n.id == tagvar:
+                        return ast.copy_location(ast.Constant(value=tag), n)
+                    if n.id in local_vals:
+                        return self.visit(_copy.deepcopy(local_vals[n.id]))
+                    return n
+                def visit_Attribute(self, n):
+                    if unparse(n) in ("ctx.allowed_html_tags", "ctx.ALLOWED_HTML_TAGS"):
+                        return ast.copy_location(ast.Name(id="TAGS__", ctx=ast.Load()), n)
+                    return self.generic_visit(n)
+            e = T2().visit(_copy.deepcopy(ctest))
+            ast.fix_missing_locations(e)
+            try:
+                closes = bool(ctx.index.fold("parser", e, {"TAGS__": table}))
+            except Exception:  # noqa: BLE001
+                undecided += 1
+                continue
+            if not closes:
+                stay_open.append(tag)
+        if undecided:
+            raise AnalysisError("tag_fn: the closing test `{}` cannot be folded for {} tags (inconclusive)".format(unparse(ctest)[:60], undecided))
+        if stay_open:
+            rr.bad(Finding("C19.R8", "src/wikitextprocessor/parser.py", "parser.tag_fn", unparse(ctest)[:80],
+                           "the serialiser writes a childless <{}> as `<{} />`, but for that tag the parser does not close the element on the "
+                           "trailing slash: after a round trip the element stays open and takes the following siblings as children (also: {})".format(
+                               stay_open[0], stay_open[0], ", ".join(stay_open[1:8])), closing[0].lineno))
+        else:
+            rr.ok("parser.tag_fn", "`<tag />` closes the element for every tag the emitter writes that way", {"test": unparse(ctest)[:80]})
     if plain and not others:
         rr.ok("parser.tag_fn", "`{}` alone suffices to close the element: {}".format(flag, unparse(plain[-1].test)), {"test": unparse(plain[-1].test)})
     elif not plain:
